@@ -493,6 +493,47 @@ func TestC15(t *testing.T) {
 			r := c.RunB(bn.KwPrint+" \""+in+"\";\n", "")
 			return r.Out != in+"\n"
 		})
+		// + between a number and a string splices whatever the string spells — digits, signs, exponents, the
+		// names of other values: the text is what দেখাও prints for the number next to what it prints for the string
+		c.Sub("numeric-looking-strings", func(s *Sub) {
+			P := bn.KwPrint
+			nums := []string{"7", "0", "(-1.5)", "(10 ** 21)", "0.1", "((2 ** 1024) - (2 ** 1024))", "(2 ** 1024)", "(2 ** 53)", "(1 << 62)", "(-0)", "৩", "1000000", "0.000001", "(7 % 4)", "(1 << 3)"}
+			strs := []string{"5", "x", "০", "4.0", "nan", " 1", "", "e3", ".5", "-2", "+3", "0x10", "1e2", "১২.৫", "Inf", bn.KwTrue, "nil", "0", "00", "5 ", "\\t5", "1_0", "٣"}
+			var k int64
+			for _, n := range nums {
+				for _, t := range strs {
+					k++
+					if !c.Mine(k) {
+						continue
+					}
+					q := "\"" + t + "\""
+					src := P + " " + n + ";\n" + P + " " + q + ";\n" + P + " " + n + " + " + q + ";\n" + P + " " + q + " + " + n + ";\n" + P + " \"\" + " + n + " + " + q + ";\n" +
+						P + " [" + n + " + " + q + ", " + q + " + " + n + "];\n" + P + " (" + n + " + " + q + ") == (\"\" + " + n + " + " + q + ");\n" + P + " \"end\";\n"
+					r := c.RunB(src, "")
+					c.Ev.EnumCase("numeric-looking-strings", true, func() string { return n + " + " + q }, "number-plus-string")
+					ln := strings.Split(r.Out, "\n")
+					bad := ""
+					switch {
+					case r.Class() != "clean" || len(ln) != 9 || ln[7] != "end":
+						bad = "the program did not run to its end printing 8 lines"
+					case ln[2] != ln[0]+ln[1]:
+						bad = fmt.Sprintf("number + string printed %q; the number prints %q and the string %q", ln[2], ln[0], ln[1])
+					case ln[3] != ln[1]+ln[0]:
+						bad = fmt.Sprintf("string + number printed %q; the string prints %q and the number %q", ln[3], ln[1], ln[0])
+					case ln[4] != ln[0]+ln[1]:
+						bad = fmt.Sprintf("\"\" + number + string printed %q; the number prints %q and the string %q", ln[4], ln[0], ln[1])
+					case ln[5] != "["+ln[0]+ln[1]+" "+ln[1]+ln[0]+"]":
+						bad = fmt.Sprintf("inside an array the two splices print %q", ln[5])
+					case ln[6] != "true":
+						bad = "number + string is not equal to \"\" + number + string"
+					}
+					if bad != "" {
+						s.Violation(Replay{Check: "print", Sig: "number-plus-string", Source: src, Extra: map[string]string{"expr": n + " + " + q}, Note: bad, Observed: r.Describe()})
+					}
+				}
+			}
+			c.Ev.MarkExhaustive(fmt.Sprintf("%d numbers x %d strings (digits in three scripts, signs, exponents, blanks, names of other values) spliced both ways", len(nums), len(strs)))
+		})
 		c.Sub("shared-containers", func(s *Sub) {
 			if c.Shard != 0 {
 				return
